@@ -440,6 +440,8 @@ def main():
 
     # ------------------------------------------------------------------ (4e) the retry loop against real breakers
     cases = [c for c in corpus_cases if c.get("kind") == "c20.submit_loop"] + [G.submit_loop_case(rng) for _ in range(300 * n_scale)]
+    for k, c in enumerate(cases):
+        if k % 3 == 2: c["ferr"] = True      # the submitted function returns an error of its own (its result; the model's loop does not look at it)
     impl = run_cases(drv, cases)
     model = run_cases(mdl, cases)
     bad = unfaithful = 0
@@ -515,12 +517,13 @@ def main():
         ck.note("observation (not an add operation, so outside the clause): SetProp/EnableRule(false)/SetParents write property facts without the capacity gate; %d generated histories end above MaxFacts that way (theorem capacity_ungated_witness)" % ungated)
 
     # HTTPRequest consults HTTPBreakers
-    for lim, n in ((1, 4), (3, 7)):
-        r = run_cases(drv, [{"kind": "c20.http_breaker", "limit": lim, "n": n}])[0]
-        ck.count({"http": lim, "n": n})
+    for lim, n, key in ((1, 4, "uri"), (3, 7, "uri"), (2, 6, "host"), (1, 3, "host")):
+        hc = {"kind": "c20.http_breaker", "limit": lim, "n": n, "key": key}
+        r = run_cases(drv, [hc])[0]
+        ck.count({"http": lim, "n": n, "key": key})
         if r.get("hits") != lim or r.get("throttled") != n - lim or r.get("other"):
-            ck.violation("HTTPRequest.Do with a breaker of %d: server saw %s requests, %s throttled with status 430" % (lim, r.get("hits"), r.get("throttled")),
-                         {"case": {"kind": "c20.http_breaker", "limit": lim, "n": n}, "impl": r}, tag="http")
+            ck.violation("HTTPRequest.Do with a breaker of %d registered for the %s: server saw %s requests, %s throttled with status 430" % (lim, key, r.get("hits"), r.get("throttled")),
+                         {"case": hc, "impl": r}, tag="http")
 
     # ------------------------------------------------------------------ (5) known findings: replay each witness on the real code
     for f in kf:
